@@ -1,6 +1,7 @@
 INIT Init
 NEXT Next
 CONSTANTS
+  Dev = {}
   Kinds = {"field"}
   Strict = TRUE
   Full = TRUE
